@@ -512,3 +512,281 @@ def c10_class(r, impl_lines, model_lines):
     if at("assign_over_derived"):
         return "reader_validated_after_specify_over_derived_memo_of_earlier_revision"
     return None
+
+
+# ------------------------------------------------------------------ builds
+
+def build_driver():
+    """Extract the Structs model and build ocaml/structs_driver (if stale)."""
+    import os
+    from . import common
+    drv = os.path.join(common.BUILD, "ocaml-structs", "structs_driver")
+    deps = [os.path.join(common.COQ, p) for p in ("Structs/Model.vo", "Structs/Spec.vo", "Structs/Dsl.vo", "Kern/CoreK.vo")]
+    deps += [os.path.join(common.ROOT, "ocaml", "structs_driver.ml"), os.path.join(common.COQ, "ExtractStructs.v")]
+    if os.path.exists(drv) and all(os.path.exists(d) and os.path.getmtime(d) <= os.path.getmtime(drv) for d in deps):
+        return drv
+    common.sh([os.path.join(common.ROOT, "ocaml", "build_structs.sh")], timeout=900, check=True,
+              env={"COQROOT": common.COQ})
+    return drv
+
+
+PROBE = ("(case probe (cfg (nk 2) (ni 2) (nf 3) (hashmod 0)) (ival) (idur) "
+         "(prog (node 1 0 (let 2 (new (lit 1) (lit 2) (lit 3)) (reth 2) (lit 0)))) (hist (get 1 0)))")
+
+
+def build_all(prop):
+    """audit, translator, proofs, model driver, harness (+ probe that hook H8 is present)."""
+    import os
+    from . import common
+    probs = common.audit()
+    if probs:
+        raise common.CheckError("audit failed: " + "; ".join(probs[:5]))
+    proof_broken = None
+    digest = {}
+    ok, log, digest = common.run_translator()
+    if not ok:
+        proof_broken = dict(kind="translation", detail=log[-3000:])
+    rep = None
+    if proof_broken is None:
+        rep = common.props_report(prop)
+        if not rep["ok"]:
+            proof_broken = dict(kind="proof", detail=rep["log"][-3000:], theorems=rep["theorems"],
+                                bad_axioms=rep["bad_axioms"])
+    driver = None
+    try:
+        ok, log = common.coq_make(["Structs/Model.vo", "Structs/Spec.vo", "Structs/Dsl.vo"])
+        if ok:
+            driver = build_driver()
+        elif proof_broken is None:
+            raise common.CheckError("Structs model does not compile:\n" + log[-2000:])
+    except common.CheckError:
+        if proof_broken is None:
+            raise
+    rel = common.cargo_build("harness", "default", bins=["structs_harness"])
+    harness = os.path.join(rel, "structs_harness")
+    if driver is None:
+        raise common.CheckError("structs model driver could not be built")
+    impl, model = run_both([PROBE], harness, driver, shards=1)
+    st = parse_state(split_lines(impl.get("probe", []))["S"].get(0, ""))
+    if not st["slots"]:
+        raise common.CheckError("hook H8 (hooks/H8-structs.patch: verif_dump of the tracked-struct ingredient) "
+                                "is not applied to /repo: the state dump has no struct slots")
+    return proof_broken, rep, digest, driver, harness
+
+
+# ------------------------------------------------------------------ the generic structs check
+
+C10_CLASSES = [
+    "specify_overwrites_value_computed_earlier_when_reader_only_validated",
+    "backdate_assertion_when_unspecified_value_equals_computed",
+    "reader_validated_after_unspecify_because_recomputed_stamp_is_old",
+    "reader_validated_after_specify_over_derived_memo_of_earlier_revision",
+]
+
+
+def run_structs(ctx, profiles, n_quick, n_thorough, oracle=None, owns_spec_diffs=False,
+                nontrivial_rule=None, thm_note="", extra_assumptions=None):
+    """audit, props_report, builds, implementation vs model at values/events/state, implementation
+    vs from-scratch specification on values (handles through canonical names), property oracle
+    on the implementation's own records, decision (DESIGN section 6), evidence.
+    owns_spec_diffs: this property decides the `specify` deviation classes (C10); for the other
+    properties a spec-level difference that belongs to a C10 class is counted, not decided."""
+    import time
+    from . import common
+    t0 = time.time()
+    proof_broken, rep, digest, driver, harness = build_all(ctx.prop)
+    n = n_quick if ctx.tier == "quick" else n_thorough
+    size = "quick" if ctx.tier == "quick" else "thorough"
+    cases = list(se.corpus(ctx.prop))
+    ncorpus = len(cases)
+    per = max(1, n // len(profiles))
+    for p in profiles:
+        cases += generate(ctx.seed, p, per, size, prefix=f"{p}-")
+    impl, model = run_both(cases, harness, driver, shards=6)
+
+    known = {kf["class"]: kf for kf in common.known_findings() if kf["property"] == ctx.prop}
+    feats_count, opcount = {}, {}
+    distinct, nontrivial = set(), 0
+    corr_diffs, spec_diffs, oracle_diffs = [], [], []
+    class_count = {}
+    relaxed_cases = 0
+    for c in cases:
+        cid = c.split()[1]
+        il, ml = impl.get(cid, ["ERROR missing"]), model.get(cid, ["ERROR missing"])
+        r = compare_case(il, ml)
+        if r["level"] == "error":
+            raise common.CheckError(f"driver error on case {cid}: {r}")
+        if r.get("relaxed"):
+            relaxed_cases += 1
+        if r["level"] == "spec":
+            cls = c10_class(r, il, ml)
+            if cls is not None:
+                class_count[cls] = class_count.get(cls, 0) + 1
+            if cls is not None and (not owns_spec_diffs or cls in known):
+                pass                                  # a known / foreign deviation class: counted
+            else:
+                spec_diffs.append((c, dict(r, deviation_class=cls)))
+        elif r["level"] is not None:
+            corr_diffs.append((c, r))
+        if oracle is not None:
+            o = oracle(c, il, ml)
+            if o is not None:
+                oracle_diffs.append((c, o))
+        f = classify(ml)
+        nt = nontrivial_rule(f) if nontrivial_rule else ("reexec" in f and "validate" in f)
+        for x in f:
+            feats_count[x] = feats_count.get(x, 0) + 1
+        h = common.case_hash(c.split(" ", 2)[2])
+        if nt and h not in distinct:
+            distinct.add(h)
+            nontrivial += 1
+        for opk in ("(set ", "(get ", "(gets ", "(synth ", "(setcell ", "(entries)"):
+            opcount[opk.strip("( )")] = opcount.get(opk.strip("( )"), 0) + c.count(opk)
+    if owns_spec_diffs:
+        for cls, cnt in sorted(class_count.items()):
+            if cls in known:
+                ctx.known_finding(f"class={cls} {known[cls]['text']} (met in {cnt} generated cases)")
+
+    def fails_at(level):
+        def f(text):
+            i2, m2 = run_both([text], harness, driver, shards=1)
+            cid = text.split()[1]
+            if cid not in i2 or cid not in m2:
+                return False
+            return compare_case(i2[cid], m2[cid])["level"] == level
+        return f
+
+    def report_case(c, r, kind, no_input=False):
+        ctx.violation(dict(kind=kind, case=c, first_difference=r, engine="structs",
+                           how_to_replay="./vp replay <this file>"), no_input=no_input)
+
+    reported = 0
+    seen_classes = set()
+    for c, r in spec_diffs:
+        cls = r.get("deviation_class")
+        if cls in seen_classes or reported >= 4:
+            continue
+        seen_classes.add(cls)
+        small = shrink(c, fails_at("spec"), budget=150)
+        i2, m2 = run_both([small], harness, driver, shards=1)
+        cid = small.split()[1]
+        r2 = compare_case(i2[cid], m2[cid])
+        if r2["level"] == "spec":
+            r2 = dict(r2, deviation_class=c10_class(r2, i2[cid], m2[cid]))
+        report_case(small, r2 if r2["level"] else r,
+                    "implementation differs from the from-scratch specification"
+                    + (f" (specify deviation class {cls}, not listed in known-findings.txt)" if cls else ""))
+        reported += 1
+    for c, o in oracle_diffs[:3]:
+        report_case(c, o, "property oracle violated on the implementation's own records")
+        reported += 1
+
+    searched = 0
+    if reported == 0 and (proof_broken is not None or corr_diffs):
+        extra = []
+        for p in profiles + (["durstructs"] if "durstructs" not in profiles else []):
+            extra += generate(ctx.seed + 7919, p, max(400, n_thorough // len(profiles)), "thorough", prefix=f"s-{p}-")
+        i3, m3 = run_both(extra, harness, driver, shards=6)
+        searched = len(extra)
+        found = None
+        for c in extra:
+            cid = c.split()[1]
+            r3 = spec_only_compare(i3.get(cid, []), m3.get(cid, []))
+            if r3["level"] == "spec":
+                cls = c10_class(r3, i3.get(cid, []), m3.get(cid, []))
+                if cls is None or (owns_spec_diffs and cls not in known):
+                    found = (c, dict(r3, deviation_class=cls))
+                    break
+            if oracle is not None:
+                o3 = oracle(c, i3.get(cid, []), m3.get(cid, []))
+                if o3 is not None:
+                    found = (c, o3)
+                    break
+        if found:
+            report_case(found[0], found[1], "failing input found after proof/correspondence broke")
+        elif proof_broken is not None:
+            ctx.violation(dict(kind="proof obligation no longer checks", broken=proof_broken,
+                               theorem_file=f"coq/Props/{ctx.prop}.v",
+                               search=f"{searched} extra cases compared with the specification, none fails"),
+                          no_input=True)
+        else:
+            c, r = corr_diffs[0]
+            small = shrink(c, fails_at(r["level"]), budget=100)
+            i2, m2 = run_both([small], harness, driver, shards=1)
+            r2 = compare_case(i2[small.split()[1]], m2[small.split()[1]])
+            ctx.violation(dict(kind="correspondence model/implementation no longer holds",
+                               relation=f"Structs model (coq/Structs/Model.v) vs implementation at level {r['level']}",
+                               case=small, first_difference=r2 if r2["level"] else r, engine="structs",
+                               n_cases_differing=len(corr_diffs),
+                               search=f"{searched} extra cases compared with the specification, none fails"),
+                          no_input=True)
+
+    sample = cases[ncorpus] if len(cases) > ncorpus else cases[0]
+    ctx.coverage.update({
+        "obligations": rep["obligations"] if rep else 0,
+        "discharged": rep["discharged"] if rep else 0,
+        "checker_cmd": f"make -C coq Props/{ctx.prop}.vo  (coqc 8.16.1, Print Assumptions captured and compared with coq/ASSUMPTIONS.allow)",
+        "trusted_base": common.TRUSTED_BASE_COMMON + [
+            "hook H8 (tracked-struct slots, free list) reporting internal state truthfully",
+            "the harness's identity-field Hash impl (value mod HASHMOD) is the model's idhash",
+        ] + (extra_assumptions or []),
+        "theorems": rep["statements"] if rep else [],
+        "axioms_reported": rep["axioms"] if rep else [],
+        "closed_under_global_context": rep["closed_count"] if rep else 0,
+        "theorem_note": thm_note,
+        "evaluations": len(cases),
+        "corpus_cases": ncorpus,
+        "distinct_nontrivial": nontrivial,
+        "rule": "seeded generation (profiles %s); non-trivial = %s; distinct = different program+history text" % (
+            ",".join(profiles), "property-specific rule on the model's own log/state (see check module)"
+            if nontrivial_rule else "at least one re-execution and one validation"),
+        "traces_validated_against_impl": len(cases) - len(corr_diffs),
+        "correspondence_levels": [
+            "values (u8 result + returned struct ids, panic class; entries() enumeration with field values)",
+            "events (WillExecute, DidValidateMemoizedValue, DidDiscard, WillDiscardStaleOutput; keys with generation)",
+            "state (revisions, cancellation count, input stamps, every memo: has_value/verified_at/changed_at/durability/"
+            "origin incl. assigner/edges incl. field and output edges/tracked_struct_ids; every struct slot: "
+            "updated_at/durability/field revisions/field values; free list with generations)",
+        ],
+        "comparison_relaxations": {
+            "tracked_struct_ids order inside a memo": "compared as a sorted list (hashbrown drain order not modelled)",
+            "DidDiscard order inside one deletion cascade": f"compared exactly first; multiset fallback needed in {relaxed_cases} cases",
+            "generation of a live slot": "not stored by the Rust slot; compared through the owners' id lists and the free list",
+        },
+        "implementation_vs_spec_disagreements": len(spec_diffs),
+        "specify_deviation_class_cases": class_count,
+        "implementation_vs_model_disagreements": len(corr_diffs),
+        "oracle_disagreements": len(oracle_diffs),
+        "failing_input_search_cases": searched,
+        "feature_histogram": feats_count,
+        "operation_histogram": opcount,
+        "samples": [sample],
+        "wall_s": round(time.time() - t0, 1),
+    })
+    ctx.assumptions = [
+        "user code is deterministic in what it reads (salsa's contract) and does not forge or leak struct handles",
+        "the hook dumps (H1, H8) report internal state truthfully",
+        "executions that unwind are outside the Structs-layer theorems (see checks/notes)",
+    ] + (extra_assumptions or [])
+    ctx.write_evidence("proof")
+
+
+def replay(ctx, rp):
+    """Re-run exactly the recorded case against the current /repo."""
+    proof_broken, rep, digest, driver, harness = build_all(ctx.prop)
+    if "case" not in rp:
+        print("replay: no concrete input recorded; broken obligation:", rp.get("broken", rp.get("relation")))
+        print("proof status now:", "broken" if proof_broken else "ok")
+        return 1 if proof_broken else 0
+    c = rp["case"]
+    impl, model = run_both([c], harness, driver, shards=1)
+    cid = c.split()[1]
+    r = compare_case(impl[cid], model[cid])
+    print("implementation:")
+    print("\n".join(impl[cid]))
+    print("model + specification:")
+    print("\n".join(model[cid]))
+    print("first difference:", r)
+    if r["level"] == "spec":
+        print("deviation class:", c10_class(r, impl[cid], model[cid]))
+    return 1 if r["level"] else 0
